@@ -60,7 +60,8 @@ def exit_arc_stream(ctx, check_instance, count, reported):
     depot one (what the feasibility heuristic does for a stranded customer), then queried again.  The variable count
     changes; the objective, constraint and QUBO data reported afterwards must have the new, mutually consistent
     dimensions and satisfy the identity.  (Seeded change C02_n resets only the enumeration flag there.)"""
-    rng = ctx.rng
+    import random
+    rng = random.Random(f"c02-exit-arc-{getattr(ctx, 'seed', 0)}")      # own generator: the draws of the other streams do not move
     done = 0
     for case in fh.gen_objects(rng, 4 * count, 10, kinds=("arc",)):
         if done >= count:
